@@ -39,6 +39,10 @@ func (cx *c20Ctx) onceEP(fi *FuncInfo, sep string) {
 			}
 		} else {
 			nOther++
+			if last := st.ret[len(st.ret)-1]; n == 0 && last.k == c20kErr && last.tag != "new" {
+				r.Bad(c, cx.posOf(st, fi.Decl.Pos()), "`%s` returns the status-typed error &%s{...} on a path that makes no request [%s]: the typed errors stand for the status the server sent for the one GET of the call", src(r.P.Fset, st.retAt), last.tag, c20PathText(st))
+				return
+			}
 			if n > 1 {
 				r.Bad(c, cx.posOf(st, fi.Decl.Pos()), "error return `%s` can be reached after %d requests", src(r.P.Fset, st.retAt), n)
 				return
